@@ -75,10 +75,52 @@ def mag_strategy(draw):
     return [[str(k), v.numerator, v.denominator] for k, v in m.items()]
 
 
+SMALL = [3, 5, 7, 11, 13, 127, 8191, 65537]
+
+
+@st.composite
+def near_limit(draw, T):
+    """magnitude constructed to land within a factor ~2 of a limit of T (instead of waiting for a random product to do so): integral T: odd part * 2^k in
+    (max/2, max] or just above; floating T: 2^a * prod p^e (mixed signs, so that partial products over the smaller bases may pass the limit although the exact value
+    does not, and vice versa) with log2 within ~1.5 of max, min normal or the smallest subnormal"""
+    if reps.is_int(T):
+        mx = reps.rmax(T)
+        odd = 1
+        for _ in range(draw(st.integers(0, 3))):
+            p = draw(st.sampled_from(SMALL + [2147483647, 2305843009213693951, 9223372036854775837, 18446744073709551557]))
+            if odd * p <= mx:
+                odd *= p
+        k = 0
+        while odd * 2 ** (k + 1) <= mx:
+            k += 1
+        k += draw(st.sampled_from([0, 0, 0, 1, -1]))          # 0: in (max/2, max]; +1: just beyond; -1: comfortably inside
+        m = dict(reps.factorint(odd)) if odd > 1 else {}
+        if k > 0:
+            m[2] = m.get(2, 0) + k
+        return [[str(b), e, 1] for b, e in sorted(m.items())]
+    dig, emax, emin, edenorm = reps.FLT[T]
+    target = draw(st.sampled_from([emax, emax, emax, emin, edenorm])) + draw(st.sampled_from([-1.5, -1.0, -0.6, -0.3, -0.05, 0.05, 0.3, 0.6, 1.0, 1.5]))
+    m, acc = {}, mpmath.mpf(0)
+    for _ in range(draw(st.integers(1, 3))):
+        b = draw(st.sampled_from(SMALL + ["pi", 18446744073709551557]))
+        e = draw(st.sampled_from([-1, -1, -2, -3, 1, 1, 2, 3, 5, -7, 40, -40]))
+        if b in m:
+            continue
+        m[b] = e
+        acc += mpmath.log(mpmath.pi if b == "pi" else mpmath.mpf(b), 2) * e
+    a = int(mpmath.floor(target - acc + mpmath.mpf("0.5")))
+    if a:
+        m[2] = a
+    return [[str(b), e, 1] for b, e in m.items()]
+
+
 @st.composite
 def case(draw):
-    kind = draw(st.sampled_from(["value", "value", "value", "classify", "equal"]))
-    c = {"kind": kind, "m": draw(mag_strategy()), "T": draw(st.sampled_from(reps.ALL_REPS))}
+    kind = draw(st.sampled_from(["value", "value", "value", "classify", "equal", "limit", "limit"]))
+    T = draw(st.sampled_from(reps.ALL_REPS))
+    if kind == "limit":
+        return {"kind": "value", "m": draw(near_limit(T)), "T": T}
+    c = {"kind": kind, "m": draw(mag_strategy()), "T": T}
     if kind == "equal":
         c["m2"] = draw(mag_strategy())
         c["same"] = draw(st.booleans())
